@@ -594,6 +594,24 @@ impl World {
         root.for_new_client(1, PubKey(PEER), DBID)
     }
 
+    fn root_handler(&self, ver: u32) -> RootHandler {
+        let mut init = InitHandler::new(0, self.node.clone(), Arc::new(PositiveApprover()), ver);
+        let m = msgs::HsmdInit {
+            key_version: vls_protocol::model::Bip32KeyVersion { pubkey_version: 0, privkey_version: 0 },
+            chain_params: { use lightning_signer::bitcoin::hashes::Hash; lightning_signer::bitcoin::BlockHash::all_zeros() },
+            encryption_key: None,
+            dev_privkey: None,
+            dev_bip32_seed: None,
+            dev_channel_secrets: None,
+            dev_channel_secrets_shaseed: None,
+            hsm_wire_min_version: 2,
+            hsm_wire_max_version: ver,
+        };
+        let (done, _) = init.handle(Message::HsmdInit(m)).expect("hsmd init");
+        assert!(done);
+        init.into()
+    }
+
     fn reply(&self, r: Box<dyn vls_protocol::msgs::SerBolt>) -> Message {
         msgs::from_vec(r.as_vec()).expect("decode reply")
     }
@@ -896,6 +914,255 @@ impl World {
                     let h = self.handler(6);
                     match h.handle(Message::GetPerCommitmentPoint2(msgs::GetPerCommitmentPoint2 { commitment_number: n })) {
                         Ok(_) => Ok("ok".into()),
+                        Err(e) => Err(herr_class(&e)),
+                    }
+                }
+                // ---- the remaining handler arms that touch the enforcement state ------------------
+                "hsignholder" => {
+                    // SignLocalCommitmentTx2 (channel handler)
+                    let (ver, n) = (num(1) as u32, num(2));
+                    let h = self.handler(ver);
+                    match h.handle(Message::SignLocalCommitmentTx2(msgs::SignLocalCommitmentTx2 { commitment_number: n })) {
+                        Ok(_) => {
+                            self.on_holder_sig(n, "SignLocalCommitmentTx2");
+                            Ok(format!("ok signed={}", n))
+                        }
+                        Err(e) => Err(herr_class(&e)),
+                    }
+                }
+                "hsigncommit" => {
+                    // SignCommitmentTx (root handler, CLN): non-zero locktime = holder commitment, only the number counts
+                    use lightning_signer::bitcoin::{absolute::LockTime, transaction::Version, Amount, ScriptBuf, Transaction, TxIn, TxOut};
+                    let (ver, n) = (num(1) as u32, num(2));
+                    let tx = Transaction {
+                        version: Version::TWO,
+                        lock_time: LockTime::from_consensus(0x2000_0001),
+                        input: vec![TxIn::default()],
+                        output: vec![TxOut { value: Amount::from_sat(1000), script_pubkey: ScriptBuf::new() }],
+                    };
+                    let psbt = lightning_signer::bitcoin::psbt::Psbt::from_unsigned_tx(tx.clone()).expect("psbt");
+                    let root = self.root_handler(ver);
+                    let m = msgs::SignCommitmentTx {
+                        peer_id: PubKey(PEER),
+                        dbid: DBID,
+                        tx: vls_protocol::serde_bolt::WithSize(tx),
+                        psbt: vls_protocol::serde_bolt::WithSize(vls_protocol::psbt::PsbtWrapper { inner: psbt }),
+                        remote_funding_key: PubKey(PEER),
+                        commitment_number: n,
+                    };
+                    match root.handle(Message::SignCommitmentTx(m)) {
+                        Ok(_) => {
+                            self.on_holder_sig(n, "SignCommitmentTx");
+                            Ok(format!("ok signed={}", n))
+                        }
+                        Err(e) => Err(herr_class(&e)),
+                    }
+                }
+                "hrevokecp" => {
+                    // ValidateRevocation
+                    let n = num(1);
+                    let bytes: [u8; 32] = hex::decode(t[2]).unwrap().try_into().unwrap();
+                    let ptid = num(3);
+                    let h = self.handler(6);
+                    let m = msgs::ValidateRevocation { commitment_number: n, commitment_secret: vls_protocol::model::DisclosedSecret(bytes) };
+                    match h.handle(Message::ValidateRevocation(m)) {
+                        Ok(_) => {
+                            self.on_cp_revoked(n, bytes, ptid);
+                            Ok("ok".into())
+                        }
+                        Err(e) => Err(herr_class(&e)),
+                    }
+                }
+                "hsigncp" => {
+                    // SignRemoteCommitmentTx2
+                    let (n, ptid, c) = (num(1), num(2), num(3));
+                    let (th, tc) = content(c);
+                    let h = self.handler(6);
+                    if !ready {
+                        // the point table needs the counterparty keys, which exist only after setup
+                        let m = msgs::SignRemoteCommitmentTx2 {
+                            remote_per_commitment_point: PubKey(PublicKey::from_secret_key(&self.secp, &SecretKey::from_slice(&[0x33; 32]).unwrap()).serialize()),
+                            commitment_number: n,
+                            feerate: 0,
+                            to_local_value_sat: th,
+                            to_remote_value_sat: tc,
+                            htlcs: vec![].into(),
+                        };
+                        return h.handle(Message::SignRemoteCommitmentTx2(m)).map(|_| "ok".to_string()).map_err(|e| herr_class(&e));
+                    }
+                    let point = self.cp_point((ptid - 1000) / 4, (ptid - 1000) % 4);
+                    let m = msgs::SignRemoteCommitmentTx2 {
+                        remote_per_commitment_point: PubKey(point.serialize()),
+                        commitment_number: n,
+                        feerate: 0,
+                        to_local_value_sat: th,
+                        to_remote_value_sat: tc,
+                        htlcs: vec![].into(),
+                    };
+                    match h.handle(Message::SignRemoteCommitmentTx2(m)) {
+                        Ok(_) => {
+                            self.on_cp_signed(n, ptid, c);
+                            Ok("ok".into())
+                        }
+                        Err(e) => Err(herr_class(&e)),
+                    }
+                }
+                "hmutualclose" => {
+                    // SignMutualCloseTx2
+                    let good = if t.len() > 3 { num(3) == 1 } else { num(1) == 1 };
+                    let path = DerivationPath::from(vec![lightning_signer::bitcoin::bip32::ChildNumber::from_normal_idx(7).unwrap()]);
+                    let script = { use lightning_signer::wallet::Wallet; self.node.get_native_address(&path).unwrap().script_pubkey() };
+                    let cps = lightning_signer::bitcoin::ScriptBuf::from_hex("0014be56df7de366ad8ee9ccdad54e9a9993e99ef565").unwrap();
+                    let (th, tc, cpscript) = if good { (2_998_000u64, 0u64, vec![]) } else { (2_598_000u64, 400_000u64, cps.to_bytes()) };
+                    let h = self.handler(6);
+                    let m = msgs::SignMutualCloseTx2 {
+                        to_local_value_sat: th,
+                        to_remote_value_sat: tc,
+                        local_script: vls_protocol::serde_bolt::Octets(script.to_bytes()),
+                        remote_script: vls_protocol::serde_bolt::Octets(cpscript),
+                        local_wallet_path_hint: vls_protocol::serde_bolt::ArrayBE(vec![7u32]),
+                    };
+                    h.handle(Message::SignMutualCloseTx2(m)).map(|_| "ok".to_string()).map_err(|e| herr_class(&e))
+                }
+                "hvalidate1" => {
+                    // ValidateCommitmentTx (phase 1 through the handler: transaction + PSBT with witness scripts)
+                    use lightning_signer::bitcoin::{absolute::LockTime, transaction::Version, Amount, ScriptBuf, Transaction, TxIn, TxOut};
+                    let (ver, n, c, fact, v) = (num(1) as u32, num(2), num(3), num(4), if t.len() > 6 { num(6) } else { num(4) });
+                    let (th, tc) = content(c);
+                    let received = htlcs_of(c);
+                    let (ctx, sig, hsigs) = if ready { self.validate_inputs(n, c, v) } else { (None, self.dummy_sig(), vec![]) };
+                    let full = match &ctx {
+                        Some(ctx) => {
+                            let (full, f) = self.verify_sigs(ctx, &sig, &hsigs);
+                            if f != fact {
+                                self.tags.insert(format!("HARNESS-sigfact-mismatch:{}vs{}", f, fact));
+                            }
+                            full
+                        }
+                        None => false,
+                    };
+                    let (tx, wit): (Transaction, Vec<Vec<u8>>) = match &ctx {
+                        Some(ctx) => {
+                            let tx = ctx.tx.as_ref().unwrap().trust().built_transaction().transaction.clone();
+                            let wit = self
+                                .node
+                                .with_channel(&self.channel_id, |chan| {
+                                    let params = chan.make_channel_parameters();
+                                    let parameters = params.as_holder_broadcastable();
+                                    let trusted = ctx.tx.as_ref().unwrap().trust();
+                                    let htlcs = Channel::htlcs_info2_to_oic(&vec![], &received);
+                                    let scripts = build_tx_scripts(
+                                        trusted.keys(),
+                                        th,
+                                        tc,
+                                        &htlcs,
+                                        &parameters,
+                                        &chan.keys.pubkeys().funding_pubkey,
+                                        &chan.setup.counterparty_points.funding_pubkey,
+                                    )
+                                    .expect("scripts");
+                                    Ok(scripts.iter().map(|s| s.as_bytes().to_vec()).collect())
+                                })
+                                .unwrap();
+                            (tx, wit)
+                        }
+                        None => (
+                            Transaction {
+                                version: Version::TWO,
+                                lock_time: LockTime::from_consensus(0x2000_0001),
+                                input: vec![TxIn::default()],
+                                output: vec![TxOut { value: Amount::from_sat(1000), script_pubkey: ScriptBuf::new() }],
+                            },
+                            vec![vec![]],
+                        ),
+                    };
+                    let mut psbt = lightning_signer::bitcoin::psbt::Psbt::from_unsigned_tx(tx.clone()).expect("psbt");
+                    for (i, w) in wit.iter().enumerate() {
+                        psbt.outputs[i].witness_script = Some(ScriptBuf::from(w.clone()));
+                    }
+                    let wire_htlcs: Vec<vls_protocol::model::Htlc> = received
+                        .iter()
+                        .map(|x| vls_protocol::model::Htlc {
+                            side: vls_protocol::model::Htlc::REMOTE,
+                            amount: x.value_sat * 1000,
+                            payment_hash: vls_protocol::model::Sha256(x.payment_hash.0),
+                            ctlv_expiry: x.cltv_expiry,
+                        })
+                        .collect();
+                    let m = msgs::ValidateCommitmentTx {
+                        tx: vls_protocol::serde_bolt::WithSize(tx),
+                        psbt: vls_protocol::serde_bolt::WithSize(vls_protocol::psbt::PsbtWrapper { inner: psbt }),
+                        htlcs: wire_htlcs.into(),
+                        commitment_number: n,
+                        feerate: 0,
+                        signature: BitcoinSignature { signature: WireSig(sig.serialize_compact()), sighash: 1 },
+                        htlc_signatures: hsigs
+                            .iter()
+                            .map(|x| BitcoinSignature { signature: WireSig(x.serialize_compact()), sighash: 1 })
+                            .collect::<Vec<_>>()
+                            .into(),
+                    };
+                    let h = self.handler(ver);
+                    let before = self.estate();
+                    let r = h.handle(Message::ValidateCommitmentTx(m));
+                    let after = self.estate();
+                    let validated = match (&before, &after) {
+                        (Some(b), Some(a)) =>
+                            r.is_ok()
+                                || a.next_holder_commit_num != b.next_holder_commit_num
+                                || (a.next_holder_commit_info.is_some() && b.next_holder_commit_info.is_none()),
+                        _ => false,
+                    };
+                    if validated && full {
+                        self.mon.accepted_valid.insert(n);
+                    } else if validated {
+                        self.tags.insert("validate:accepted-not-fully-signed".into());
+                    }
+                    match r {
+                        Ok(rep) => match self.reply(rep) {
+                            Message::ValidateCommitmentTxReply(rep) => match rep.old_commitment_secret {
+                                Some(d) => Ok(format!("ok {}", self.on_secret(d.0, "ValidateCommitmentTx"))),
+                                None => Ok("ok".into()),
+                            },
+                            _ => Ok("ok ?reply".into()),
+                        },
+                        Err(e) => Err(herr_class(&e)),
+                    }
+                }
+                "hcheckfuture" => {
+                    // CheckFutureSecret: a yes/no oracle on a suggested secret; implementation-only op
+                    // (not fed to the model): must not change anything and must answer truthfully
+                    let (n, k) = (num(1), num(2));
+                    let real = {
+                        let slot = self.node.get_channel(&self.channel_id).unwrap();
+                        let g = slot.lock().unwrap_or_else(|e| e.into_inner());
+                        let keys = match &*g {
+                            ChannelSlot::Stub(s) => s.keys.clone(),
+                            ChannelSlot::Ready(c) => c.keys.clone(),
+                        };
+                        keys.release_commitment_secret(INITIAL - (n & INITIAL)).unwrap()
+                    };
+                    let mut sec = real;
+                    if k != 0 {
+                        sec[31] ^= 1;
+                    }
+                    let before = self.digest();
+                    let h = self.handler(6);
+                    let r = h.handle(Message::CheckFutureSecret(msgs::CheckFutureSecret { commitment_number: n, secret: vls_protocol::model::DisclosedSecret(sec) }));
+                    let after = self.digest();
+                    if before != after {
+                        self.violation("c01-checkfuture-changed-state", format!("CheckFutureSecret({}) changed the enforcement state", n));
+                    }
+                    match r {
+                        Ok(rep) => match self.reply(rep) {
+                            Message::CheckFutureSecretReply(rep) => {
+                                if rep.result != (k == 0 && n <= INITIAL) {
+                                    self.violation("c01-checkfuture-wrong", format!("CheckFutureSecret({}) answered {} for a {} secret", n, rep.result, if k == 0 { "genuine" } else { "wrong" }));
+                                }
+                                Ok(format!("ok {}", rep.result))
+                            }
+                            _ => Ok("ok ?reply".into()),
+                        },
                         Err(e) => Err(herr_class(&e)),
                     }
                 }
